@@ -5,6 +5,7 @@ import (
 	"flag"
 	"fmt"
 	"os"
+	"runtime/pprof"
 	"strconv"
 	"strings"
 	"time"
@@ -27,7 +28,13 @@ func main() {
 	worker := flag.Bool("worker", false, "internal: E1 worker")
 	replay := flag.String("replay", "", "replay file")
 	list := flag.Bool("list", false, "list scenarios")
+	prof := flag.String("cpuprofile", "", "write cpu profile")
 	flag.Parse()
+	if *prof != "" {
+		f, _ := os.Create(*prof)
+		pprof.StartCPUProfile(f)
+		defer pprof.StopCPUProfile()
+	}
 	if s := os.Getenv("VERIF_SEED"); s != "" {
 		rc.Seed, _ = strconv.ParseInt(s, 10, 64)
 	}
